@@ -101,6 +101,10 @@ def gen_cases(rng, tier):
                 c['id'] = 'ptc%d' % pk
                 pk += 1
                 cases.append(c)
+    for lab, t in cfgmut.capacity_catalogue():
+        c = pt_case(0, t, corp[0][2], 'capacity', (lab,))
+        c['id'] = 'ptcap-%s' % lab
+        cases.append(c)
     cons = cfgmut.constructs()
     if tier == 'quick':
         # rotate through the constructs: a third of them per seed residue, all of them in the thorough tier
